@@ -20,6 +20,7 @@ use std::io::{BufRead, Write};
 use std::marker::PhantomData;
 use std::panic::{catch_unwind, AssertUnwindSafe};
 
+mod mt;
 mod pure;
 #[cfg(feature = "miniwasm")]
 mod protoreg;
@@ -83,6 +84,15 @@ impl Storage for SnapStorage {
 pub struct ChainApi {
     prefix: String,
     inner: MockApi,
+}
+
+impl ChainApi {
+    pub fn new(prefix: &str) -> ChainApi {
+        ChainApi {
+            prefix: prefix.to_string(),
+            inner: MockApi::default(),
+        }
+    }
 }
 
 impl ChainApi {
@@ -157,7 +167,7 @@ type Deps = OwnedDeps<SnapStorage, ChainApi, MockQuerier>;
 // panic capture
 
 thread_local! {
-    static LAST_PANIC: RefCell<String> = RefCell::new(String::new());
+    pub(crate) static LAST_PANIC: RefCell<String> = RefCell::new(String::new());
 }
 
 fn install_panic_hook() {
@@ -198,7 +208,7 @@ fn err_kind(dbg: &str) -> String {
         .collect()
 }
 
-fn err_json<E: std::fmt::Debug + std::fmt::Display>(e: &E) -> Value {
+pub(crate) fn err_json<E: std::fmt::Debug + std::fmt::Display>(e: &E) -> Value {
     let dbg = format!("{:?}", e);
     // second level for the wrapping variants
     let kind = err_kind(&dbg);
@@ -209,11 +219,11 @@ fn err_json<E: std::fmt::Debug + std::fmt::Display>(e: &E) -> Value {
     json!({"err": {"kind": kind, "inner": inner, "text": format!("{}", e)}})
 }
 
-fn response_json(r: &Response) -> Value {
+pub(crate) fn response_json(r: &Response) -> Value {
     json!({"ok": serde_json::to_value(r).unwrap()})
 }
 
-fn parse_coins(v: &Value) -> Result<Vec<Coin>, String> {
+pub(crate) fn parse_coins(v: &Value) -> Result<Vec<Coin>, String> {
     let mut out = vec![];
     if let Some(arr) = v.as_array() {
         for c in arr {
@@ -641,6 +651,7 @@ fn main() {
     let stdout = std::io::stdout();
     let mut out = stdout.lock();
     let mut sim: Option<Sim> = None;
+    let mut mtw: Option<mt::Mt> = None;
     for line in stdin.lock().lines() {
         let line = match line {
             Ok(l) => l,
@@ -671,6 +682,48 @@ fn main() {
                 ));
                 json!({"ok": null})
             }
+            Some("mt_reset") => {
+                let t: u64 = req["time"].as_str().and_then(|s| s.parse().ok()).unwrap_or(0);
+                mtw = Some(mt::Mt::new(
+                    req["chain_prefix"].as_str().unwrap_or("osmo"),
+                    req["addr"].as_str().unwrap_or(""),
+                    t,
+                    req["height"].as_u64().unwrap_or(1),
+                ));
+                json!({"ok": null})
+            }
+            Some(op) if op.starts_with("mt_") => match mtw.as_mut() {
+                None => json!({"bad": "mt_reset first"}),
+                Some(m) => match op {
+                    "mt_boot" => {
+                        let mut r = m.boot(req["sender"].as_str().unwrap_or(""), &req["msg"]);
+                        r["ledger"] = m.ledger(&req["accounts"], &req["denoms"]);
+                        r
+                    }
+                    "mt_event" => {
+                        let mut r = m.event(&req["ev"]);
+                        if r.get("bad").is_none() {
+                            r["ledger"] = m.ledger(&req["accounts"], &req["denoms"]);
+                        }
+                        r
+                    }
+                    "mt_dump" => {
+                        let users: Vec<String> = req["users"]
+                            .as_array()
+                            .map(|a| a.iter().filter_map(|u| u.as_str().map(|s| s.to_string())).collect())
+                            .unwrap_or_default();
+                        json!({"ok": m.dump(&users)})
+                    }
+                    "mt_rawset" => {
+                        let k = hex::decode(req["key"].as_str().unwrap_or("")).unwrap_or_default();
+                        let v = hex::decode(req["value"].as_str().unwrap_or("")).unwrap_or_default();
+                        m.rawset(&k, &v);
+                        json!({"ok": null})
+                    }
+                    "mt_rawdump" => json!({"ok": m.rawdump()}),
+                    _ => json!({"bad": format!("unknown op {op}")}),
+                },
+            },
             Some("const") => json!({"ok": {
                 "staking_name": staking::contract::CONTRACT_NAME,
                 "staking_version": staking::contract::CONTRACT_VERSION,
